@@ -49,7 +49,7 @@ def Notif.isMarker : Notif → Bool
 
 /-- operations that are motions, queries or copies: they must not change the text -/
 def Op.isMotionOrCopy : Op → Bool
-  | .moveBackward _ | .moveForward _ | .moveBufferStart | .moveBufferEnd | .moveHome | .moveEnd
+  | .moveBackward _ | .moveForward _ | .moveBufferStart | .moveBufferEnd | .moveHome | .moveEnd | .moveToFirstPrint
   | .isEndOfInput | .moveToPrevWord _ _ | .moveToNextWord _ _ _ | .moveToLineUp _ _
   | .moveToLineDown _ _ | .moveTo _ _ | .copy _ | .setPos _ | .nextPos _ => true
   | _ => false
